@@ -184,6 +184,19 @@ func ops(r *mon.R, im *Impl, rng *gen.Rng, idx int) {
 				check("Div*Mul", im.New().Mul(im.New().Div(sa, sb), sb), new(big.Int).Set(a))
 			}
 		}
+		// the same operations into a receiver that already holds another (full-width) value: the previous content must not matter
+		used := func() kyber.Scalar { return im.fromBig(new(big.Int).Sub(q, big.NewInt(1+int64(it%3)))) }
+		check("Add/used-receiver", used().Add(sa, sb), new(big.Int).Add(a, b))
+		check("Sub/used-receiver", used().Sub(sa, sb), new(big.Int).Sub(a, b))
+		check("Mul/used-receiver", used().Mul(sa, sb), new(big.Int).Mul(a, b))
+		check("Neg/used-receiver", used().Neg(sa), new(big.Int).Neg(a))
+		check("Set/used-receiver", used().Set(sa), new(big.Int).Set(a))
+		if b.Sign() != 0 {
+			if bi := new(big.Int).ModInverse(b, q); bi != nil {
+				check("Div/used-receiver", used().Div(sa, sb), new(big.Int).Mul(a, bi))
+				check("Inv/used-receiver", used().Inv(sb), new(big.Int).Set(bi))
+			}
+		}
 		check("Zero", im.New().Set(sa).Zero(), new(big.Int))
 		check("One", im.New().Set(sa).One(), big.NewInt(1))
 		check("Set", im.New().Set(sa), new(big.Int).Set(a))
@@ -328,7 +341,14 @@ func setInt64(r *mon.R, im *Impl, rng *gen.Rng, idx int) {
 		}
 		det := func() map[string]any { return map[string]any{"impl": im.Name, "v": v} }
 		var s kyber.Scalar
-		if msg, p := mon.Try(func() { s = im.New().SetInt64(v) }); p {
+		if msg, p := mon.Try(func() {
+			s = im.New().SetInt64(v)
+			// and into a receiver holding q-1: same result
+			if u := im.fromBig(new(big.Int).Sub(q, big.NewInt(1))).SetInt64(v); !u.Equal(s) || !s.Equal(u) {
+				ub, _ := u.MarshalBinary()
+				r.Violation("C02/"+im.Name+"/"+class+"/stale-receiver", "SetInt64 result depends on the previous value of the receiver", map[string]any{"impl": im.Name, "v": v, "got": mon.Hex(ub)})
+			}
+		}); p {
 			d := det()
 			d["panic"] = msg
 			r.Eval(class, fmt.Sprintf("%s|%d", im.Name, v), true)
